@@ -388,6 +388,28 @@ func kindOf(query string) string {
 type failDriver struct {
 	inner driver.Driver
 	ctl   *Ctl
+	mu    sync.Mutex
+	conns []*failConn
+}
+
+func (d *failDriver) track(c *failConn) *failConn {
+	d.mu.Lock()
+	d.conns = append(d.conns, c)
+	d.mu.Unlock()
+	return c
+}
+
+// closeAll force-closes every raw connection ever opened (the engine rolls back what they left open).
+func (d *failDriver) closeAll() {
+	d.mu.Lock()
+	defer d.mu.Unlock()
+	for _, c := range d.conns {
+		if !c.dead {
+			c.dead = true
+			_ = c.Conn.Close()
+		}
+	}
+	d.conns = nil
 }
 
 type connector struct {
@@ -400,7 +422,7 @@ func (c connector) Connect(context.Context) (driver.Conn, error) {
 	if err != nil {
 		return nil, err
 	}
-	return &failConn{Conn: in, ctl: c.d.ctl}, nil
+	return c.d.track(&failConn{Conn: in, ctl: c.d.ctl}), nil
 }
 func (c connector) Driver() driver.Driver { return c.d }
 
@@ -409,7 +431,7 @@ func (d *failDriver) Open(name string) (driver.Conn, error) {
 	if err != nil {
 		return nil, err
 	}
-	return &failConn{Conn: in, ctl: d.ctl}, nil
+	return d.track(&failConn{Conn: in, ctl: d.ctl}), nil
 }
 
 type failConn struct {
@@ -611,7 +633,10 @@ func (e *Env) LeakedTx() bool {
 	if e.DB == nil || e.DB.Stats().InUse == 0 {
 		return false
 	}
-	e.SQL.Close()
+	if fd, ok := e.DB.Driver().(*failDriver); ok {
+		fd.closeAll()
+	}
+	go e.SQL.Close() // sql.DB.Close waits for the leaked transaction's connection to be released: never
 	ds, db, err := OpenSQLiteDB(e.DBPath, e.Ctl)
 	if err != nil {
 		panic(err)
